@@ -139,5 +139,6 @@ func Flatten(it Item) Item {
 		})
 		return it
 	}
-	return it.GetLink()
+	// NOTE: items which can't be flattened (Links, objects without an ID) are returned as they are
+	return FlattenToIRI(it)
 }
